@@ -93,6 +93,29 @@ CLAIMS.update({
         ref="3/C18"),
 })
 
+CLAIMS.update({
+    "C01": dict(
+        text="Static, narrow: three structural clauses of pairwise interoperation - the automatic-response graph is acyclic per version and error replies go only to terminal packets (sufficient for 'no endless response loop'); what one role may send the peer role can receive and vice versa (both gating tables extracted exactly from MIR; necessary for 'neither side reports a protocol error about the other'); both PUBREC handlers agree, over all 9 reason codes, on which codes end the QoS 2 exchange. NOT decided: delivery exactly/at-least/at-most once, quiescence, behaviour across transport loss.",
+        note=TB + "The behavioural statement over all schedules and loss points is outside this family; level_claimed is restricted to the named clauses.",
+        technique="MIR abstract interpretation: call-graph acyclicity + table duality + sibling agreement",
+        ref="3/C01"),
+    "C02": dict(
+        text="Static, narrow: sibling agreement of the serialisers - for each of the 70 types with both serialisers the guarded sequence of appended sources of to_continuous_buffer and to_buffers is identical for every guard valuation (necessary and sufficient for contiguous == vectored bytes); size() wiring and enum dispatch forwarding. NOT decided: parse(encode(x)) == x, remaining_length arithmetic per field combination.",
+        note=TB + "Value-level round trip is outside this family.",
+        technique="MIR abstract interpretation: sibling implementations compared per guard valuation",
+        ref="3/C02"),
+    "C03": dict(
+        text="Static, tables only (exact): every wire constant (packet types, fixed headers incl. reserved flag nibbles, 27 property ids, QoS/retain/payload-format, protocol levels, all reason-code enums both directions with names, MqttError wire range, MqttError->DisconnectReasonCode, success/failure partitions), property data types and Property::parse dispatch, the fixed header stored by each build/parse, PUBLISH flag masks, per-kind field order by type, and absence of non-big-endian conversions are compared with the transcribed OASIS tables. NOT decided: per-value encodings.",
+        note=TB + "Known finding F20 (v3.1.1 PUBACK/PUBREC/PUBREL/PUBCOMP carry an optional reason-code byte the 3.1.1 specification does not define) listed in known_findings.jsonl.",
+        technique="exact table extraction (evaluated discriminants, field types, MIR match tables, serialiser order) vs specification tables",
+        ref="3/C03"),
+    "C09": dict(
+        text="Static, narrow: recv() feeds once and handles every build result; feed resets (reset proved equal to new()) on every Complete/Error return; every byte read is appended / written in place with offset and remaining length advanced; the remaining-length state machine is explored exactly over its multiplier domain (at most four bytes, no overflow, error + reset on the fifth). NOT decided: equality of event sequences over all chunkings.",
+        note=TB,
+        technique="MIR abstract interpretation + exact finite-domain exploration of the length decoder",
+        ref="3/C09"),
+})
+
 NOT_APPLICABLE = {
     "C20": "Refinement of a set model over all operation sequences plus the sorted/disjoint/merged representation invariant of a BTreeSet<ValueInterval> with a non-standard Ord: needs an inductive data-structure invariant no static abstract domain in reach expresses; a syntactic proxy would fire on behaviour-preserving rewrites. The out-of-range query clause is decided under C08-R5.",
 }
